@@ -63,6 +63,9 @@ struct Target {
     rmutmethod: HashMap<String, String>,          // "name/arity" -> res (value * receiver's new value)
     condmut: Vec<(String, Vec<String>, String)>,  // condition text -> (variables, option (new values)); None = condition true
     retvars: Vec<String>,                         // retmode mutself: the function returns the final versions of these
+    scrutmut: Vec<(String, Vec<String>, String)>, // match scrutinee text -> (variables, term : value * new values)
+    condeff: Vec<(String, Vec<String>, String)>,  // if condition text -> (variables, term : bool * new values)
+    retstate: Vec<String>,                        // the function also returns the final versions of these (after its value)
     recfuel: Option<String>,                      // recursive function: Fixpoint on a fuel parameter; panic site when it runs out
 }
 
@@ -71,6 +74,7 @@ struct Tr<'a> {
     fresh: usize,
     env: Vec<HashMap<String, (String, Kind)>>,
     loop_depth: usize,
+    loop_sr: Vec<Vec<String>>, // enclosing state-and-return loops: their state variables
 }
 
 type R<T> = Result<T, String>;
@@ -84,6 +88,7 @@ enum K<'a> {
     Join(Vec<String>),                 // end of a branch that rejoins: yield the current versions of these variables
     Val,                               // a block used as a value (let x = if .. { ..; v } else { .. })
     NoFall,                            // a branch that must not fall through (it returns)
+    LoopSR(Vec<String>),               // end of the body of a loop with state and early return: next element
 }
 
 impl<'a> Tr<'a> {
@@ -516,6 +521,19 @@ impl<'a> Tr<'a> {
     fn ret(&mut self, e: &Expr) -> R<String> {
         let mut binds = Vec::new();
         let body = self.ret_inner(e, &mut binds)?;
+        if let Some(vars) = self.loop_sr.last().cloned() {
+            // inside a loop with state: the loop stops with the current state and the returned value
+            let mut parts = Vec::new();
+            for v in &vars {
+                parts.push(self.lookup(v).ok_or(format!("loop variable {}", v))?.0);
+            }
+            return Ok(Self::wrap_binds(binds, format!("obind ({}) (fun r_ret => Ok ({}, Some r_ret))", body, Self::tuple_of(&parts))));
+        }
+        let body = if self.t.retstate.is_empty() {
+            body
+        } else {
+            format!("obind ({}) (fun r_v => {})", body, self.final_value("r_v")?)
+        };
         // inside a loop body the returned outcome (with the partial operations it needs) is the loop's result
         Ok(self.in_loop(Self::wrap_binds(binds, body)))
     }
@@ -606,6 +624,33 @@ impl<'a> Tr<'a> {
         })
     }
 
+    // the function's result for a returned value: the value, and the final state when the table asks for it
+    fn final_value(&self, raw: &str) -> R<String> {
+        if self.t.retstate.is_empty() {
+            return Ok(format!("Ok {}", raw));
+        }
+        let mut parts = Vec::new();
+        for v in &self.t.retstate {
+            parts.push(self.lookup(v).ok_or(format!("retstate variable {}", v))?.0);
+        }
+        Ok(format!("Ok ({}, {})", raw, Self::tuple_of(&parts)))
+    }
+
+    fn tuple_of(v: &[String]) -> String {
+        match v.len() {
+            0 => "tt".to_string(),
+            1 => v[0].clone(),
+            _ => format!("({})", v.join(", ")),
+        }
+    }
+    fn tuple_pat(v: &[String]) -> String {
+        match v.len() {
+            0 => "_".to_string(),
+            1 => v[0].clone(),
+            _ => format!("'({})", v.join(", ")),
+        }
+    }
+
     fn mut_keys(&self) -> Vec<String> {
         self.t.mutmethod.keys().chain(self.t.pmutmethod.keys()).chain(self.t.rmutmethod.keys()).cloned().collect()
     }
@@ -621,6 +666,8 @@ impl<'a> Tr<'a> {
                 .iter()
                 .map(|(k, vs, _)| (k.clone(), vs.clone()))
                 .chain(self.t.condmut.iter().map(|(k, vs, _)| (k.clone(), vs.clone())))
+                .chain(self.t.scrutmut.iter().map(|(k, vs, _)| (k.clone(), vs.clone())))
+                .chain(self.t.condeff.iter().map(|(k, vs, _)| (k.clone(), vs.clone())))
                 .collect(),
         }
     }
@@ -661,6 +708,13 @@ impl<'a> Tr<'a> {
             K::LoopNext => Ok("None".to_string()),
             K::Val => Err("a block used as a value must end in an expression".into()),
             K::NoFall => Err("the branch of a mutating condition must return".into()),
+            K::LoopSR(vars) => {
+                let mut parts = Vec::new();
+                for v in vars {
+                    parts.push(self.lookup(v).ok_or(format!("loop variable {}", v))?.0);
+                }
+                Ok(format!("Ok ({}, None)", Self::tuple_of(&parts)))
+            }
             K::Join(vars) => {
                 let mut parts = Vec::new();
                 for v in vars {
@@ -1007,6 +1061,54 @@ impl<'a> Tr<'a> {
                     format!("obind (fold_res (fun {} {} =>\n{}) {} {}) (fun {} =>\n{})", pat(&params), xv, body, it, tuple(&init), pat(&outs), restc),
                 ))
             }
+            Expr::ForLoop(f) if self.loop_depth == 0 && self.loop_sr.is_empty() && {
+                let sc = scan_block_with(&f.body, self.mk_scan());
+                sc.value_return && sc.assigned.iter().any(|v| self.lookup(v).is_some())
+            } => {
+                // a loop that updates outer variables AND may return a value early
+                let sc = scan_block_with(&f.body, self.mk_scan());
+                let vars: Vec<String> = sc.assigned.into_iter().filter(|v| self.lookup(v).is_some()).collect();
+                let mut binds = Vec::new();
+                let (it, _) = self.expr(&f.expr, &mut binds)?;
+                let mut init = Vec::new();
+                for v in &vars {
+                    init.push(self.lookup(v).unwrap().0);
+                }
+                let saved = self.env.clone();
+                let mut params = Vec::new();
+                for v in &vars {
+                    params.push(self.rebind(v)?);
+                }
+                self.env.push(HashMap::new());
+                let xpat = self.for_pattern(&f.pat);
+                self.loop_sr.push(vars.clone());
+                let body = match &xpat {
+                    Ok(_) => self.seq(&f.body.stmts, &K::LoopSR(vars.clone())),
+                    Err(e) => Err(e.clone()),
+                };
+                self.loop_sr.pop();
+                self.env = saved;
+                let xpat = xpat?;
+                let (xv, body) = if xpat.starts_with("'(") {
+                    ("x_it".to_string(), format!("let {} := x_it in\n{}", xpat, body?))
+                } else {
+                    (xpat, body?)
+                };
+                let mut outs = Vec::new();
+                for v in &vars {
+                    outs.push(self.rebind(v)?);
+                }
+                let fin = self.final_value("r_loop")?;
+                let restc = self.seq(rest, k)?;
+                Ok(Self::wrap_binds(
+                    binds,
+                    format!(
+                        "obind (loop_sr (fun {} {} =>\n{}) {} {}) (fun '({}, o_loop) =>\nmatch o_loop with\n| Some r_loop => {}\n| None =>\n{}\nend)",
+                        Self::tuple_pat(&params), xv, body, it, Self::tuple_of(&init),
+                        Self::tuple_pat(&outs).trim_start_matches('\''), fin, restc
+                    ),
+                ))
+            }
             Expr::If(_) | Expr::Match(_) if self.joinable(e, rest, k) => self.join_stmt(e, rest, k),
             Expr::If(i) => self.if_stmt(i, rest, k),
             Expr::Match(m) => self.match_stmt(m, rest, k),
@@ -1057,6 +1159,20 @@ impl<'a> Tr<'a> {
                     let c = self.rebind(&recv)?;
                     let restc = self.seq(rest, k)?;
                     return Ok(Self::wrap_binds(binds, format!("let {} := {} in\n{}", c, v, restc)));
+                }
+                if let Some(tmpl) = self.t.pmutmethod.get(&key).cloned() {
+                    // x.m(args);  — m returns () but may panic; the receiver variable gets a new value
+                    let recv = toks(&m.receiver);
+                    let mut binds = Vec::new();
+                    let (r0, _) = self.expr(&m.receiver, &mut binds)?;
+                    let mut args = vec![r0];
+                    for a in &m.args {
+                        args.push(self.expr(a, &mut binds)?.0);
+                    }
+                    let v = Self::subst(&tmpl, &args);
+                    let c = self.rebind(&recv)?;
+                    let restc = self.seq(rest, k)?;
+                    return Ok(Self::wrap_binds(binds, format!("obind ({}) (fun {} =>\n{})", v, c, restc)));
                 }
                 if self.is_fallible(e) && (!rest.is_empty() || !self.tail_position(k)) {
                     // self.validate_x();  — may panic, value dropped
@@ -1177,6 +1293,14 @@ impl<'a> Tr<'a> {
                 Ok(format!("{} {}", ctor, parts.join(" ")))
             }
             Pat::Lit(l) => Ok(toks(l)),
+            Pat::Tuple(t) => {
+                let mut parts = Vec::new();
+                for x in &t.elems {
+                    parts.push(self.pattern(x)?);
+                }
+                Ok(format!("({})", parts.join(", ")))
+            }
+            Pat::Reference(r) => self.pattern(&r.pat),
             _ => Err(format!("pattern {}", toks(p))),
         }
     }
@@ -1210,6 +1334,20 @@ impl<'a> Tr<'a> {
             return Ok(Self::wrap_binds(binds, format!("match {} with\n| {} =>\n{}\n| _ =>\n{}\nend", scrut, pat, then, els)));
         }
         let ctext = toks(&*i.cond);
+        for (key, vars, term) in self.t.condeff.clone() {
+            if key == ctext {
+                // if <condition with an effect> { .. } else { .. }: both branches see the updated variables
+                let term = self.subst_vars(&term);
+                let mut names = Vec::new();
+                for v in &vars {
+                    names.push(self.rebind(v)?);
+                }
+                let c = self.fresh("c");
+                let then = self.block(&i.then_branch, rest, k)?;
+                let els = else_code(self)?;
+                return Ok(format!("let '({}, {}) := {} in\nif {} then\n{}\nelse\n{}", c, Self::tuple_of(&names), term, c, then, els));
+            }
+        }
         for (key, vars, term) in self.t.condmut.clone() {
             if key == ctext {
                 // if <mutating condition> { return .. }  — otherwise go on with the updated variables
@@ -1250,7 +1388,26 @@ impl<'a> Tr<'a> {
 
     fn match_stmt(&mut self, m: &ExprMatch, rest: &[Stmt], k: &K) -> R<String> {
         let mut binds = Vec::new();
-        let (scrut, _) = self.expr(&m.expr, &mut binds)?;
+        let stext = toks(&*m.expr);
+        let mut prefix = String::new();
+        let mut scrut_override = None;
+        for (key, vars, term) in self.t.scrutmut.clone() {
+            if key == stext {
+                // match <call with an effect> { .. }: the arms see the updated variables
+                let term = self.subst_vars(&term);
+                let mut names = Vec::new();
+                for v in &vars {
+                    names.push(self.rebind(v)?);
+                }
+                let sc = self.fresh("sc");
+                prefix = format!("let '({}, {}) := {} in\n", sc, Self::tuple_of(&names), term);
+                scrut_override = Some(sc);
+            }
+        }
+        let (scrut, _) = match scrut_override {
+            Some(sc) => (sc, Kind::Other),
+            None => self.expr(&m.expr, &mut binds)?,
+        };
         let numeric = m.arms.iter().all(|a| a.guard.is_none() && matches!(&a.pat, Pat::Lit(_) | Pat::Range(_) | Pat::Wild(_)))
             && m.arms.iter().any(|a| matches!(&a.pat, Pat::Lit(_) | Pat::Range(_)));
         if numeric {
@@ -1330,8 +1487,14 @@ impl<'a> Tr<'a> {
             self.env = saved;
             let _ = write!(out, "| {} =>\n{}\n", pat, body);
         }
+        // a match on a Result value: a panic inside the callee is not one of the source's arms
+        let on_result = m.arms.iter().any(|a| matches!(&a.pat, Pat::TupleStruct(ts) if { let n = toks(&ts.path); n == "Ok" || n == "Err" }));
+        let has_wild = m.arms.iter().any(|a| matches!(a.pat, Pat::Wild(_)) && a.guard.is_none());
+        if on_result && !has_wild {
+            out.push_str("| Panic s_panic => Panic s_panic\n");
+        }
         out.push_str("end");
-        Ok(Self::wrap_binds(binds, out))
+        Ok(Self::wrap_binds(binds, format!("{}{}", prefix, out)))
     }
 }
 
@@ -1525,6 +1688,13 @@ fn parse_targets(text: &str) -> (String, Vec<Target>) {
                 let (vs, term) = b.split_once(":=").expect("condmut needs vars := term");
                 t.condmut.push((norm(&a), vs.split(',').map(|v| v.trim().to_string()).collect(), term.trim().to_string()));
             }
+            "scrutmut" | "condeff" => {
+                let (a, b) = arrow(rest);
+                let (vs, term) = b.split_once(":=").expect("needs vars := term");
+                let e = (norm(&a), vs.split(',').map(|v| v.trim().to_string()).collect(), term.trim().to_string());
+                if key == "scrutmut" { t.scrutmut.push(e) } else { t.condeff.push(e) }
+            }
+            "retstate" => t.retstate = rest.split_whitespace().map(|s| s.to_string()).collect(),
             "retvars" => t.retvars = rest.split_whitespace().map(|s| s.to_string()).collect(),
             "recfuel" => t.recfuel = Some(rest.to_string()),
             "skip" => t.skip_macros = rest.split_whitespace().map(|s| s.to_string()).collect(),
@@ -1679,7 +1849,7 @@ fn main() {
         }
         module_consts(&file, &mut t);
         local_consts(block, &mut t);
-        let mut tr = Tr { t: &t, fresh: 0, env: vec![HashMap::new()], loop_depth: 0 };
+        let mut tr = Tr { t: &t, fresh: 0, env: vec![HashMap::new()], loop_depth: 0, loop_sr: Vec::new() };
         let kw = if t.recfuel.is_some() { "Fixpoint" } else { "Definition" };
         let mut header = format!("{} {}", kw, t.coq);
         if t.recfuel.is_some() {
